@@ -79,6 +79,52 @@ struct mk<I, Mask, A, std::index_sequence<K...>> {
 template <typename I, std::size_t G>
 using gpat_t = typename mk<I, mask_of(G), assign_of(G), std::make_index_sequence<rank_of(G)>>::type;
 
+// ---- conversion targets: other patterns of the same rank whose static extents are compatible with a source pattern
+// (at every position: one side dynamic, or equal static values), e.g. <3,d> -> <d,2>, <d,4,d> -> <d,d,3>.
+constexpr std::size_t st_of(std::size_t g, std::size_t k) { return ((mask_of(g) >> k) & 1U) ? std::size_t(SV[assign_of(g)][k]) : dyn; }
+constexpr unsigned popcount4(unsigned m) { return (m & 1U) + ((m >> 1) & 1U) + ((m >> 2) & 1U) + ((m >> 3) & 1U); }
+constexpr bool conv_ok(std::size_t ge, std::size_t gf)
+{
+    if (ge == gf || rank_of(ge) != rank_of(gf)) { return false; }
+    if (mask_of(ge) == 0 || mask_of(gf) == 0) { return false; } // <-> all-dynamic is covered by its own operation
+    for (std::size_t k = 0; k < rank_of(ge); ++k) {
+        std::size_t const a = st_of(ge, k), b = st_of(gf, k);
+        if (a != dyn && b != dyn && a != b) { return false; }
+    }
+    return true;
+}
+constexpr bool conv_same_rd(std::size_t ge, std::size_t gf) { return popcount4(mask_of(ge)) == popcount4(mask_of(gf)); }
+// order in which the targets of ge are taken when only a few are wanted: same rank_dynamic (at other positions) first,
+// then by cyclic distance from ge inside the rank's block (so that different sources pick different targets)
+constexpr std::size_t conv_order(std::size_t ge, std::size_t gf)
+{
+    std::size_t const n = np(rank_of(ge)), b = pbase(rank_of(ge));
+    return (conv_same_rd(ge, gf) ? 0 : n) + ((gf - b) + n - (ge - b)) % n;
+}
+constexpr std::size_t conv_rank(std::size_t ge, std::size_t gf) // number of valid targets of ge taken before gf
+{
+    std::size_t c = 0;
+    std::size_t const b = pbase(rank_of(ge));
+    for (std::size_t t = b; t < b + np(rank_of(ge)); ++t) {
+        if (conv_ok(ge, t) && conv_order(ge, t) < conv_order(ge, gf)) { ++c; }
+    }
+    return c;
+}
+// f.template operator()<F, GF>() for (at most Limit) conversion targets F of the pattern with global id GE
+template <typename I, std::size_t GE, std::size_t Limit, typename Fn>
+void for_each_target(Fn&& f)
+{
+    constexpr std::size_t B = pbase(rank_of(GE));
+    [&]<std::size_t... J>(std::index_sequence<J...>) {
+        ((void)[&]<std::size_t GF>(std::integral_constant<std::size_t, GF>) {
+            if constexpr (conv_ok(GE, GF)) {
+                if constexpr (conv_rank(GE, GF) < Limit) { f.template operator()<gpat_t<I, GF>, GF>(); }
+            }
+        }(std::integral_constant<std::size_t, B + J>{}),
+            ...);
+    }(std::make_index_sequence<np(rank_of(GE))>{});
+}
+
 static_assert(VF_PLO < VF_PHI && VF_PHI <= NG && VF_PSTEP >= 1);
 constexpr std::size_t NSEL = (VF_PHI - VF_PLO + VF_PSTEP - 1) / VF_PSTEP; // patterns compiled into this unit
 template <std::size_t K>
@@ -139,6 +185,14 @@ inline Arr shape_of(PInfo const& p, std::uint64_t s, unsigned base = 5)
         }
     }
     return a;
+}
+template <typename F>
+bool shape_matches(Arr const& shape) // the shape is in the domain of a conversion to F: it agrees with F's static extents
+{
+    for (std::size_t r = 0; r < F::rank(); ++r) {
+        if (F::static_extent(r) != dyn && (LL)F::static_extent(r) != shape[r]) { return false; }
+    }
+    return true;
 }
 inline std::string show(Arr const& a, std::size_t R)
 {
